@@ -25,6 +25,13 @@ CLAIMS = {
         "note": "Trusts libmpdec configured as decimal128 and Python Fraction. decNumber's deliberate <=3-byte over-reads of its own stack buffers are not instrumented (documented in lib/runner.py and DESIGN.md). ASan-clean is not memory safety.",
         "design_ref": "DESIGN.md §3 C02",
     },
+    "C07": {
+        "category": "exploration",
+        "technique": "in-driver runtime oracle (digit-string arithmetic) over an exponent x length x shape sweep + independent Python Decimal / strict JSON cross-check, replayed under ASan",
+        "text": "For every exponent (thorough: all of -6176..6111; quick: bands around 0 and both range ends plus a stride) x coefficient length 1..34 x 4 shapes x both signs, the real FeelNumber is printed with to_string and jsonify and read back; the driver checks the text is a plain decimal / JSON number denoting exactly the value and round-trips; a seeded sample is also pushed through FEEL literals and xsd:decimal conversion and cross-checked in Python.",
+        "note": "Expected values come from shifting the decimal point in the digit string, independent of the code under test; the ASan replay watches the 43-byte string buffer at the FFI boundary.",
+        "design_ref": "DESIGN.md §3 C07",
+    },
     "C09": {
         "category": "exploration",
         "technique": "runtime law monitor over observed evaluations (exhaustive value alphabet + seeded random values)",
